@@ -141,6 +141,18 @@ def run_case(case):
         h = hashlib.sha256()
         chance = 0
         for n_, a in enumerate(case["actions"]):
+            if render:
+                # unrelated work of the caller between the steps: arrays of
+                # the sizes the environment itself uses, filled and dropped
+                # again (whatever the allocator hands out next must not show
+                # in the trajectory)
+                w = env.current_state.tensor.shape[1]
+                junk = [np.full(n, 3.25 + n_, dtype=np.float32)
+                        for n in (w, w, w + 1, env.current_state.tensor.size,
+                                  env.last_obs.tensor.size)]
+                junk.append(np.full((env.last_obs.tensor.shape[0], w), -8.5,
+                                    dtype=np.float32))
+                del junk
             if render and n_ % 7 == 3:
                 # read-only calls between the steps
                 with contextlib.redirect_stdout(io.StringIO()):
